@@ -46,6 +46,9 @@ package autodiff
 //@ func ConstScalar.GetFloat64
 //@   ensures result == val(self)
 //@   pure
+//@ func ConstScalar.GetFloat32
+//@   ensures result == val(self)
+//@   pure
 //@ func ConstScalar.GetOrder
 //@   ensures result == order(self)
 //@   pure
@@ -459,5 +462,153 @@ package autodiff
 //@   ensures isa(*$R, result) && as(*$R, result) == c
 //@   ensures lift2_post_$R(c, a, b, ((old(val(a))) / (old(val(b)))), (1 / (old(val(b)))), (((0 - 1) * old(val(a))) / ((old(val(b)) * old(val(b))))), (((0 - 1)) / ((old(val(b)) * old(val(b))))), 0, ((2 * old(val(a))) / ((old(val(b)) * old(val(b)) * old(val(b))))))
 //@   modifies $R.Value@{c}, $R.N@{c}, $R.Order@{c}, $R.Derivative@{c}, $R.Hessian@{c}, []$F@{q :: owns_$R(c, q)}
+
+//@ end
+
+// ---------------------------------------------------------------------------
+// the getters of each covered scalar type refine the interface model functions (C02: equal operands give
+// equal values whatever scalar type holds them)
+//@ propsdefault C02
+//@ for $S in (*Real64), (*Real32), (Float64), (Float32), (ConstFloat64), (ConstFloat32)
+//@ func $S.GetFloat64
+//@   requires RIc(a)
+//@   ensures result == val(a)
+//@   pure
+//@ func $S.GetFloat32
+//@   requires RIc(a)
+//@   ensures result == val(a)
+//@   pure
+//@ func $S.GetOrder
+//@   requires RIc(a)
+//@   ensures result == order(a)
+//@   pure
+//@ func $S.GetN
+//@   requires RIc(a)
+//@   ensures result == nvars(a)
+//@   pure
+//@ func $S.GetDerivative
+//@   requires RIc(a) && (order(a) >= 1 ==> 0 <= i && i < nvars(a))
+//@   ensures result == D(a, i)
+//@   pure
+//@ func $S.GetHessian
+//@   requires RIc(a) && (order(a) >= 2 ==> 0 <= i && i < nvars(a) && 0 <= j && j < nvars(a))
+//@   ensures result == H(a, i, j)
+//@   pure
+//@ end
+
+//@ propsdefault C02 C08 C09
+//@ for $S,$F in (Float64,float64), (Float32,float32)
+//@ spec okF_$S(c $S) bool = c.ptr != nil
+//@ func ($S).Neg [also: ($S).NEG]
+//@   requires okF_$S(c) && RIc(a)
+//@   ensures deref(c.ptr) == ((0 - 1) * old(val(a)))
+//@   ensures isa($S, result) && as($S, result) == c
+//@   modifies []$F@{c.ptr}
+
+//@ func ($S).Sin
+//@   requires okF_$S(c) && RIc(a)
+//@   ensures deref(c.ptr) == sin(old(val(a)))
+//@   ensures isa($S, result) && as($S, result) == c
+//@   modifies []$F@{c.ptr}
+
+//@ func ($S).Sinh
+//@   requires okF_$S(c) && RIc(a)
+//@   ensures deref(c.ptr) == sinh(old(val(a)))
+//@   ensures isa($S, result) && as($S, result) == c
+//@   modifies []$F@{c.ptr}
+
+//@ func ($S).Cos
+//@   requires okF_$S(c) && RIc(a)
+//@   ensures deref(c.ptr) == cos(old(val(a)))
+//@   ensures isa($S, result) && as($S, result) == c
+//@   modifies []$F@{c.ptr}
+
+//@ func ($S).Cosh
+//@   requires okF_$S(c) && RIc(a)
+//@   ensures deref(c.ptr) == cosh(old(val(a)))
+//@   ensures isa($S, result) && as($S, result) == c
+//@   modifies []$F@{c.ptr}
+
+//@ func ($S).Tan
+//@   requires okF_$S(c) && RIc(a)
+//@   ensures deref(c.ptr) == tan(old(val(a)))
+//@   ensures isa($S, result) && as($S, result) == c
+//@   modifies []$F@{c.ptr}
+
+//@ func ($S).Tanh
+//@   requires okF_$S(c) && RIc(a)
+//@   ensures deref(c.ptr) == tanh(old(val(a)))
+//@   ensures isa($S, result) && as($S, result) == c
+//@   modifies []$F@{c.ptr}
+
+//@ func ($S).Exp
+//@   requires okF_$S(c) && RIc(a)
+//@   ensures deref(c.ptr) == exp(old(val(a)))
+//@   ensures isa($S, result) && as($S, result) == c
+//@   modifies []$F@{c.ptr}
+
+//@ func ($S).Log
+//@   requires okF_$S(c) && RIc(a)
+//@   requires val(a) > 0
+//@   ensures deref(c.ptr) == log(old(val(a)))
+//@   ensures isa($S, result) && as($S, result) == c
+//@   modifies []$F@{c.ptr}
+
+//@ func ($S).Log1p
+//@   requires okF_$S(c) && RIc(a)
+//@   requires val(a) > 0 - 1
+//@   ensures deref(c.ptr) == log1p(old(val(a)))
+//@   ensures isa($S, result) && as($S, result) == c
+//@   modifies []$F@{c.ptr}
+
+//@ func ($S).Erf
+//@   requires okF_$S(c) && RIc(a)
+//@   ensures deref(c.ptr) == erf(old(val(a)))
+//@   ensures isa($S, result) && as($S, result) == c
+//@   modifies []$F@{c.ptr}
+
+//@ func ($S).Erfc
+//@   requires okF_$S(c) && RIc(a)
+//@   ensures deref(c.ptr) == erfc(old(val(a)))
+//@   ensures isa($S, result) && as($S, result) == c
+//@   modifies []$F@{c.ptr}
+
+//@ func ($S).Gamma
+//@   requires okF_$S(c) && RIc(a)
+//@   ensures deref(c.ptr) == gamma(old(val(a)))
+//@   ensures isa($S, result) && as($S, result) == c
+//@   modifies []$F@{c.ptr}
+
+//@ func ($S).Lgamma
+//@   requires okF_$S(c) && RIc(a)
+//@   requires val(a) > 0
+//@   ensures deref(c.ptr) == lgamma(old(val(a)))
+//@   ensures isa($S, result) && as($S, result) == c
+//@   modifies []$F@{c.ptr}
+
+//@ func ($S).Add [also: ($S).ADD]
+//@   requires okF_$S(c) && RIc(a) && RIc(b)
+//@   ensures deref(c.ptr) == (old(val(a)) + old(val(b)))
+//@   ensures isa($S, result) && as($S, result) == c
+//@   modifies []$F@{c.ptr}
+
+//@ func ($S).Sub [also: ($S).SUB]
+//@   requires okF_$S(c) && RIc(a) && RIc(b)
+//@   ensures deref(c.ptr) == (old(val(a)) + ((0 - 1) * old(val(b))))
+//@   ensures isa($S, result) && as($S, result) == c
+//@   modifies []$F@{c.ptr}
+
+//@ func ($S).Mul [also: ($S).MUL]
+//@   requires okF_$S(c) && RIc(a) && RIc(b)
+//@   ensures deref(c.ptr) == (old(val(a)) * old(val(b)))
+//@   ensures isa($S, result) && as($S, result) == c
+//@   modifies []$F@{c.ptr}
+
+//@ func ($S).Div [also: ($S).DIV]
+//@   requires okF_$S(c) && RIc(a) && RIc(b)
+//@   requires val(b) != 0
+//@   ensures deref(c.ptr) == ((old(val(a))) / (old(val(b))))
+//@   ensures isa($S, result) && as($S, result) == c
+//@   modifies []$F@{c.ptr}
 
 //@ end
